@@ -252,3 +252,30 @@ func VClientInstall(c *Client, d *Data) {
 
 // VSetBcryptCost lowers the bcrypt cost used when the client hashes passwords.
 func VSetBcryptCost(n int) { bcryptCost = n }
+
+// VStoreData returns a clone of the metadata held by the service's store (nil before Open has created it).
+func (s *Service) VStoreData() *Data {
+	if s.store == nil {
+		return nil
+	}
+	s.store.mu.RLock()
+	defer s.store.mu.RUnlock()
+	if s.store.data == nil {
+		return nil
+	}
+	return s.store.data.Clone()
+}
+
+// VIsLeader / VLeader report the raft role of the service's store.
+func (s *Service) VIsLeader() bool {
+	if s.store == nil {
+		return false
+	}
+	return s.store.isLeader()
+}
+func (s *Service) VLeader() string {
+	if s.store == nil {
+		return ""
+	}
+	return s.store.leader()
+}
